@@ -221,6 +221,12 @@ class GenerateWasmVisitor(Visitor.DefaultVisitor):
             cast(LinearIR.FunctionType, function.Type)
         )
 
+        # Declare the function: its signature goes into the type section,
+        # and the function section refers to it. The function index is the
+        # one the export registered in OnEnterFunction uses
+        typeIndex = ctx.Module.AddFunctionType(functionType)
+        ctx.Module.AddFunction(typeIndex)
+
         # Check if function is exported - for now assume yes
 
         c = ctx.Code
